@@ -484,10 +484,19 @@ impl FileCombiner {
             debug_assert!(self.buf.is_empty());
             return Ok(());
         }
-        let hash = self
+        let hash = match self
             .block_dir
             .store_or_deduplicate(take(&mut self.buf).freeze(), &mut self.stats, monitor)
-            .await?;
+            .await
+        {
+            Ok(hash) => hash,
+            Err(err) => {
+                // The combined buffer has been consumed, so the queued files' offsets no longer
+                // point at their bytes: they must not be recorded by a later flush.
+                self.queue.clear();
+                return Err(err);
+            }
+        };
         self.stats.combined_blocks += 1;
         self.finished
             .extend(self.queue.drain(..).map(|qf| IndexEntry {
